@@ -3,6 +3,10 @@ HOOK_COMMITS = []
 NOTES = "See DESIGN.md. Known findings / fixed defects: known_findings.json."
 NOT_BUILT = {}
 BUILT = {
+ "C02": dict(
+   text="Coq theorem optimize_preserves: for every well-formed DAG, every valid visiting order, every requested set and every max_total_source_arrays / max_total_num_input_blocks / always_fuse / never_fuse, each requested array evaluates to the same value after multiple_inputs_optimize_dag and is still produced (requested_still_materialized); derived from fusion_sound, not from an assumed composition law. The Gallina optimizer is tied to /repo by comparing, inside Coq, its output on the abstraction of real Plan DAGs (with networkx's recorded order) against the abstraction of the real optimizer's output; oracle: values with optimize_graph off vs each optimizer (default, fuse_all, fuse_only, mixed, legacy simple_optimize_dag)",
+   note="partial: multi-output generator functions and the legacy simple_optimize_dag are covered by the oracle and by legacy_fuse_sound (single-key successor) only, not by a DAG-level theorem; semantics of block functions is abstract (any deterministic function)",
+   technique="Rocq proof (graph rewriting preserves evaluation) over Gallina optimizer model + vm_compute correspondence with the real optimizer on real plans"),
  "C04": dict(
    text="Coq theorems over Model.Memory / Model.Dag: admission is exact (plan_accepted <-> every op's projected <= allowed, equality accepted), default_optimizer_fits (no forced fusion => every op of the optimised DAG still fits, for every DAG / visiting order / limits), fused_op_not_under_reported, peak_projected bounds; tied to /repo by evaluating the model on the integers of real finalized plans and by probing the real admission boundary (allowed_mem = M-1, M, M+1) with a tracing store and event callback on the local executors",
    note="partial: 'nothing written before refusal' is observed on the tracing store (intermediate store only) and callbacks, the theorem covers the decision arithmetic and the optimizer's memory guard; plans depend on the budget so M is re-read per probe",
